@@ -15,7 +15,7 @@ CLEAR_CACHES_EVERY = 400
 RULE = (
     "Four generated sub-checks. (a) argmax(a, axis, initial=-inf, where) on arrays of rank 1-4 (axis sizes 1-4), "
     "every non-empty axis subset (increasing in 3 of 4 cases, otherwise in arbitrary order: the flat position then refers to the reduced axes in the order in which they were PASSED, i.e. the shape one would hand to unravel_index), masks incl. fully masked slices, values from a 3-element set (ties) or "
-    "dyadic rationals, eager and jitted: the flat index must be the FIRST unmasked position attaining the masked "
+    "dyadic rationals, as float64 / int64 / int64 beyond 2**53, eager and jitted: the flat index must be the FIRST unmasked position attaining the masked "
     "maximum (0 if all masked) and the returned maximum must equal the NumPy masked maximum exactly. (b) the same "
     "with the array and mask COMPUTED INSIDE the same jitted, vmap_1d(productmap(...)) computation from generated "
     "smooth expressions (the situation in the simulation): index in range, unmasked, a[idx] >= max - 1e-12*scale, "
